@@ -147,6 +147,38 @@ def model_lines(c):
 def cases_chain(ctx, rng):
     for _ in range(500 if ctx.tier == 'quick' else 8000):
         yield chain_case(rng)
+    for _ in range(300 if ctx.tier == 'quick' else 5000):
+        spec = gen.rand_frame_spec(rng, 4, 5, dtypes=gen.DTYPES_BASIC, index_kinds=('auto', 'int', 'str'), column_kinds=('auto', 'int', 'str'), min_rows=1, min_cols=1, run_bias=0.6)
+        n, m = spec['rows'], len(spec['cols'])
+        yield {'k': 'lab', 'sub': 'bloc', 'spec': spec, 'bits': [[rng.randint(0, 1) for _ in range(m)] for _ in range(n)],
+               'perm': rng.random() < 0.3, 'r': rng.randint(0, 10 ** 6), 'n': n * m}
+
+
+def eval_bloc(ctx, c):
+    """Frame.bloc with a Boolean Frame key: the result pairs every selected (row label, column label) with the cell at
+    those labels, whatever the block layout"""
+    import static_frame as sf
+    fails = []
+    f = gen.build_frame(c['spec'])
+    n, m = f.shape
+    bits = np.array(c['bits'], dtype=bool).reshape(n, m)
+    key = sf.Frame(bits, index=f.index, columns=f.columns)
+    if c['perm'] and n > 1:
+        key = key.iloc[::-1]            # aligned by label, not by position
+    ctx.count('lab_bloc')
+    rl, cl = list(f.index), list(f.columns)
+    exp = {(tok(rl[i]), tok(cl[j])): tok(f.iloc[i, j]) for i in range(n) for j in range(m) if bits[i, j]}
+    try:
+        res = f.bloc[key]
+    except Exception as ex:
+        return [Failure('oracle', f'label route bloc: Frame.bloc[Boolean Frame] raised {type(ex).__name__}: {ex} (layout {c["spec"]["layout"]})', c)]
+    got = {(tok(k[0]), tok(k[1])): tok(v) for k, v in res.items()}
+    # (the selected cells arrive in ONE Series: numeric cells may widen - dtype resolution is C07's subject)
+    same = set(got) == set(exp) and all(cell_equal(got[k], exp[k]) for k in exp)
+    if not same or len(res) != len(exp):
+        bad = sorted(k for k in set(got) | set(exp) if k not in got or k not in exp or not cell_equal(got[k], exp[k]))[:4]
+        fails.append(Failure('oracle', f'label route bloc: Frame.bloc pairs {[(k, got.get(k), exp.get(k)) for k in bad]} (label pair, got, expected) - layout {c["spec"]["layout"]}', c))
+    return fails
 
 
 def model_lines_(c):
@@ -236,6 +268,8 @@ def evaluate(ctx, c, outs):
             return eval_lmodel(ctx, c, outs[:1]) + fm_eval(ctx, c, outs[1:])
         if c['sub'] == 'chain':
             return eval_chain(ctx, c, outs)
+        if c['sub'] == 'bloc':
+            return eval_bloc(ctx, c)
         return eval_lab(ctx, c)
     return eval_frame(ctx, c, outs[:2]) + fm_eval(ctx, c, outs[2:])
 
